@@ -51,6 +51,8 @@ def run(ctx):
     r19f(ctx)
     r19h(ctx)
     r19g(ctx)
+    r19i(ctx)
+    r19j(ctx)
 
 
 def global_value(prog, name):
@@ -306,8 +308,11 @@ EXPLANATION = ("Conformance of the finite parts decided against RFC 4880 tables 
                "definitions extracted from the source) evaluated piecewise over all boundary regions (0..8999, 2^16, 2^24, 2^31, 2^32-1; all "
                "256 first octets incl. partial lengths; old-format length types); the iterated-S2K count expression over all 256 octets; "
                "big-endian scalar encoders; the CRC comparison guarding ArmorDecode's accepting exits; the framing of the fingerprint hash input "
-               "(tag octet, length octets, offset, hash algorithm, digest length) and the key-id slice for v4 and v5 keys. Byte-exact conformance of every "
-               "emitted packet and agreement with GnuPG are not decided.")
+               "(tag octet, length octets, offset, hash algorithm, digest length) and the key-id slice for v4 and v5 keys; the octet layout of the "
+               "loop-free packet encoders (PKESK x3, signature x2, public key / subkey v4 and v5 for every public-key algorithm number 0..255, literal, "
+               "user id, SED, SEIPD, MDC, AEAD) evaluated as templates against the field order of RFC 4880 5.1/5.2/5.5.2/5.7/5.9/5.11/5.13/5.14, RFC 6637 9 "
+               "and the v5/AEAD draft, with the packet length compared with the size of what follows. The passphrase-protected form of the secret-key encoders (S2K and encryption inside; the unprotected "
+               "form is evaluated), the octets of MPIs and blocks, and agreement with GnuPG are not decided.")
 ASSUMPTIONS = ["RFC 4880 constants as typed in sa/rules/c19.py", "piecewise evaluation interprets unsigned arithmetic with the declared widths"]
 
 
@@ -642,3 +647,302 @@ def r19g(ctx):
         else:
             ctx.note('R19g', key, 'shape of the counted hashing not recognised; not evaluated', f)
     ctx.floor('R19g', sum(1 for r in ctx.results if r.rule == 'R19g' and r.status == 'ok'), 2)
+
+
+# ---- R19i: layout of emitted packets --------------------------------------------------------------
+# RFC 4880 public-key algorithm numbers (9.1), RFC 6637 (18, 19), draft-koch-eddsa (22)
+RSA_ALGOS, ELGAMAL, DSA, ECDH, ECDSA, EDDSA = (1, 2, 3), 16, 17, 18, 19, 22
+
+
+def _be(n, k):
+    return [(n >> (8 * (k - 1 - j))) & 0xFF for j in range(k)]
+
+
+def _show_seq(seq):
+    return ' '.join('%02X' % x if isinstance(x, int) else '<%s>' % ' '.join(str(y) for y in x) for x in seq)
+
+
+def r19i(ctx):
+    """every loop-free packet encoder, evaluated as a template (sa/pkteval.py) for chosen sizes and for
+    every public-key algorithm number, emits the field sequence the standard prescribes, and the packet
+    length it announces is the size of what follows"""
+    from ..pkteval import PacketEval, item_size
+    prog = ctx.prog
+    C = 'CallasDonnerhackeFinneyShawThayerRFC4880::'
+    T0 = 0x01020304
+
+    def key_material(algo, mp):
+        if algo in RSA_ALGOS:
+            return [mp('p'), mp('q')]
+        if algo == ELGAMAL:
+            return [mp('p'), mp('g'), mp('y')]
+        if algo == DSA:
+            return [mp('p'), mp('q'), mp('g'), mp('y')]
+        return None
+
+    def ecc_material(algo, a, sz, mp):
+        if algo in (ECDSA, EDDSA):
+            return [a['oidlen'] & 0xFF, ('blk', 'oid', a['oidlen']), mp('ecpk')]
+        if algo == ECDH:
+            return [a['oidlen'] & 0xFF, ('blk', 'oid', a['oidlen']), mp('ecpk'), 0x03, 0x01, a['kdf_hashalgo'], a['kdf_skalgo']]
+        return None
+
+    def key_packet(tag, ver, ecc):
+        def want(a, sz, bits):
+            def mp(n):
+                return ('mpi', n, (bits[n] + 7) // 8)
+            mat = (ecc_material(a['algo'], a, sz, mp) if ecc else key_material(a['algo'], mp))
+            if mat is None:
+                return []
+            body = [ver] + _be(T0, 4) + [a['algo']]
+            if ver == 5:
+                body += _be(sum(item_size(x) for x in mat), 4)
+            body += mat
+            return [0xC0 | tag, ('len', sum(item_size(x) for x in body))] + body
+        return want
+
+    def sec_packet(tag):
+        # RFC 4880 5.5.3 with string-to-key usage 0: public part, 0x00, the secret MPIs in the clear, two-octet checksum
+        # (high octet first); the library emits secret keys for DSA and Elgamal only
+        def want(a, sz, bits):
+            def mp(n):
+                return ('mpi', n, (bits[n] + 7) // 8)
+            mat = key_material(a['algo'], mp) if a['algo'] in (ELGAMAL, DSA) else None
+            if mat is None:
+                return []
+            from ..pkteval import CHECKSUM
+            body = [4] + _be(T0, 4) + [a['algo']] + mat + [0, mp('x'), CHECKSUM >> 8, CHECKSUM & 0xFF]
+            return [0xC0 | tag, ('len', sum(item_size(x) for x in body))] + body
+        return want
+
+    def simple(tag, fn):
+        def want(a, sz, bits):
+            def mp(n):
+                return ('mpi', n, (bits[n] + 7) // 8)
+
+            def blk(n):
+                return ('blk', n, sz[n])
+            body = fn(a, blk, mp)
+            return [0xC0 | tag, ('len', sum(item_size(x) for x in body))] + body
+        return want
+    NOW = 0x5A5B5C5D
+    TABLE = {
+        ('PacketPkeskEncode', ('keyid', 'gk', 'myk', 'out')): simple(1, lambda a, blk, mp: [3, blk('keyid'), ELGAMAL, mp('gk'), mp('myk')]),
+        ('PacketPkeskEncode', ('keyid', 'me', 'out')): simple(1, lambda a, blk, mp: [3, blk('keyid'), 1, mp('me')]),
+        ('PacketPkeskEncode', ('keyid', 'ecepk', 'rkwlen', 'rkw', 'out')):
+            simple(1, lambda a, blk, mp: [3, blk('keyid'), ECDH, mp('ecepk'), a['rkwlen'] & 0xFF, ('blk', 'rkw', a['rkwlen'])]),
+        ('PacketSigEncode', ('in', 'left', 'r', 's', 'out')): simple(2, lambda a, blk, mp: [blk('in'), 0, 0, blk('left'), mp('r'), mp('s')]),
+        ('PacketSigEncode', ('in', 'left', 's', 'out')): simple(2, lambda a, blk, mp: [blk('in'), 0, 0, blk('left'), mp('s')]),
+        ('PacketPubEncode', ('keytime', 'algo', 'p', 'q', 'g', 'y', 'out')): key_packet(6, 4, False),
+        ('PacketPubEncodeV5', ('keytime', 'algo', 'p', 'q', 'g', 'y', 'out')): key_packet(6, 5, False),
+        ('PacketSubEncode', ('keytime', 'algo', 'p', 'q', 'g', 'y', 'out')): key_packet(14, 4, False),
+        ('PacketSubEncodeV5', ('keytime', 'algo', 'p', 'q', 'g', 'y', 'out')): key_packet(14, 5, False),
+        ('PacketPubEncode', ('keytime', 'algo', 'oidlen', 'oid', 'ecpk', 'kdf_hashalgo', 'kdf_skalgo', 'out')): key_packet(6, 4, True),
+        ('PacketPubEncodeV5', ('keytime', 'algo', 'oidlen', 'oid', 'ecpk', 'kdf_hashalgo', 'kdf_skalgo', 'out')): key_packet(6, 5, True),
+        ('PacketSubEncode', ('keytime', 'algo', 'oidlen', 'oid', 'ecpk', 'kdf_hashalgo', 'kdf_skalgo', 'out')): key_packet(14, 4, True),
+        ('PacketSubEncodeV5', ('keytime', 'algo', 'oidlen', 'oid', 'ecpk', 'kdf_hashalgo', 'kdf_skalgo', 'out')): key_packet(14, 5, True),
+        ('PacketSecEncode', ('keytime', 'algo', 'p', 'q', 'g', 'y', 'x', 'passphrase', 'out')): (sec_packet(5), {'passphrase': 0}),
+        ('PacketSsbEncode', ('keytime', 'algo', 'p', 'q', 'g', 'y', 'x', 'passphrase', 'out')): (sec_packet(7), {'passphrase': 0}),
+        ('PacketLitEncode', ('in', 'out')): simple(11, lambda a, blk, mp: [0x62, 0] + _be(NOW, 4) + [blk('in')]),
+        ('PacketUidEncode', ('uid', 'out')): simple(13, lambda a, blk, mp: [blk('uid')]),
+        ('PacketSedEncode', ('in', 'out')): simple(9, lambda a, blk, mp: [blk('in')]),
+        ('PacketSeipdEncode', ('in', 'out')): simple(18, lambda a, blk, mp: [1, blk('in')]),
+        ('PacketMdcEncode', ('in', 'out')): (lambda a, sz, bits: [0xC0 | 19, 20, ('blk', 'in', sz['in'])]),
+        ('PacketAeadEncode', ('skalgo', 'aeadalgo', 'chunksize', 'iv', 'in', 'out')):
+            simple(20, lambda a, blk, mp: [1, a['skalgo'], a['aeadalgo'], a['chunksize'], blk('iv'), blk('in')]),
+    }
+    n_ok = 0
+    seen = set()
+    for (name, pnames), want in sorted(TABLE.items(), key=lambda kv: kv[0]):
+        fixed = {}
+        if isinstance(want, tuple):
+            want, fixed = want
+        cands = [f for f in prog.fn(C + name) if tuple(p['n'] for p in f['params']) == pnames]
+        key = 'R19i:%s(%s)' % (name, ','.join(pnames[:-1]))
+        if not cands:
+            # the overload may have been renamed: any overload with the same parameter *types* would have matched by
+            # name above; a vanished encoder is an anchor problem, not a pass
+            raise AnalysisBroken('packet encoder %s(%s) not found' % (name, ', '.join(pnames)))
+        f = cands[0]
+        seen.add(id(f))
+        ptypes = {p['n']: p['t'] for p in f['params']}
+        has_algo = 'algo' in pnames
+        algos = list(range(0, 256)) if has_algo else [None]
+        bad = None
+        nev = 0
+        for scen in (0, 1):
+            for algo in algos:
+                a, sz, bits = {}, {}, {}
+                for i, pn in enumerate(pnames[:-1]):
+                    t = ptypes[pn]
+                    if 'gcry_mpi' in t:
+                        bits[pn] = (1021 + 64 * i) if scen else (9 + 8 * i + (i % 7))
+                    elif ('vector<unsigned char' in t and 'const' in t) or 'basic_string' in t:
+                        sz[pn] = (3000 + 1111 * i) if scen else (8 + 3 * i)
+                    elif t.endswith('*'):
+                        pass
+                    elif pn == 'keytime':
+                        a[pn] = T0
+                    elif pn == 'algo':
+                        a[pn] = algo
+                    elif pn in ('oidlen', 'rkwlen'):
+                        a[pn] = 9 + i + 20 * scen
+                    else:
+                        a[pn] = 0x61 + i
+                for pn in pnames:
+                    if ptypes[pn].endswith('*') and 'gcry_mpi' not in ptypes[pn]:
+                        sz[pn] = a[pnames[pnames.index(pn) - 1]]
+                sz.update(fixed)
+                try:
+                    got = PacketEval(f, a, sz, bits, prog).run()
+                except evalx.NotEvaluable as ex:
+                    bad = ('note', 'not evaluable: %s' % ex)
+                    break
+                nev += 1
+                exp = want(a, sz, bits)
+                if got != exp:
+                    li = [i for i, x in enumerate(got or []) if isinstance(x, tuple) and x[0] == 'len']
+                    incons = ''
+                    if li:
+                        rest = sum(item_size(x) for x in got[li[0] + 1:])
+                        if got[li[0]][1] != rest:
+                            incons = '; the announced packet length %d differs from the %d octets that follow' % (got[li[0]][1], rest)
+                    bad = ('bad', 'for %s the encoder emits  %s  but the standard prescribes  %s%s' % (
+                        ('public-key algorithm %d' % algo) if has_algo else 'block sizes %s' % sorted(sz.items()), _show_seq(got or []), _show_seq(exp), incons))
+                    break
+            if bad:
+                break
+        if bad is None:
+            n_ok += 1
+            ctx.ok('R19i', key, 'emitted layout matches the standard (%d evaluations%s%s)' % (nev, ', all 256 algorithm numbers' if has_algo else '',
+                                                                                              ''.join(', %s of size %d only' % kv for kv in sorted(fixed.items()))), f)
+        elif bad[0] == 'note':
+            ctx.note('R19i', key, bad[1], f)
+        else:
+            ctx.bad('R19i', key, bad[1], f)
+    # encoders outside the table: listed, not decided
+    rest = sorted({f['q'].split('::')[-1] for f in prog.funcs.values() if f['q'].startswith(C + 'Packet') and 'Encode' in f['q'] and f.get('body') and
+                   id(f) not in seen and 'Experimental' in f['q']})
+    if rest:
+        ctx.note('R19i', 'R19i:not-decided', 'layout of %s is not evaluated (S2K, encryption and checksum inside the encoder)' % ', '.join(rest), None)
+    ctx.floor('R19i', n_ok, 21)
+
+
+def r19j(ctx):
+    """hashed area of the signatures the library prepares (RFC 4880 5.2.3; v5 per the draft): version, type, public-key
+    and hash algorithm octets, two-octet count equal to the size of the sub-packets that follow, every sub-packet a
+    length (of type octet + data), a type and data; creation time present as 4 big-endian octets; issuer = the 8-octet
+    key id (the low-order 64 bits of a v4 fingerprint); issuer fingerprint = key version octet + fingerprint"""
+    from ..pkteval import PacketEval, item_size
+    prog = ctx.prog
+    C = 'CallasDonnerhackeFinneyShawThayerRFC4880::'
+    fs = sorted([f for f in prog.funcs.values() if f['q'].startswith(C + 'PacketSigPrepare') and f.get('body')], key=lambda f: (f['q'], len(f['params'])))
+    n_ok = 0
+    import itertools
+    for f in fs:
+        name = f['q'].split('::')[-1]
+        pn = [p['n'] for p in f['params']]
+        pt = {p['n']: p['t'] for p in f['params']}
+        key = 'R19j:%s(%s)' % (name, ','.join(pn[:-1]))
+        v5 = name.endswith('V5')
+        opt_times = [n for n in pn if pt[n] == 'const long' and n != 'sigtime']
+        bools = [n for n in pn if pt[n] == 'const bool']
+        strs = [n for n in pn if 'basic_string' in pt[n]]
+        fpr = 'issuerfpr' if 'issuerfpr' in pn else ('issuer' if 'issuer' in pn else None)
+        fsizes = ((20, 32) if fpr == 'issuerfpr' else (20, 32, 8)) if fpr else (None,)
+        bad = None
+        nev = 0
+        for combo in itertools.product(fsizes, (0, 1), *[(0, 1)] * (len(opt_times) + len(bools) + len(strs))):
+            a, sz = {}, {}
+            big = combo[1]
+            bits_ = list(combo[2:])
+            for i, n in enumerate(pn[:-1]):
+                t = pt[n]
+                if 'pair' in t:
+                    sz[n] = 0
+                elif 'vector<unsigned char' in t:
+                    sz[n] = 20 if n == 'revoker' else (300 if big else 5) + i     # the revoker is a v4 fingerprint by the function's own assertion
+                elif n == 'sigtime':
+                    a[n] = 0x01020304
+                elif n in opt_times:
+                    a[n] = (0x11223300 + i) * bits_[opt_times.index(n)]
+                elif n in bools:
+                    a[n] = bits_[len(opt_times) + bools.index(n)]
+                elif n in strs:
+                    sz[n] = (200 + i) * bits_[len(opt_times) + len(bools) + strs.index(n)]
+                elif '&' not in t:
+                    a[n] = 0x70 + i
+            if fpr:
+                sz[fpr] = combo[0]
+            try:
+                got = PacketEval(f, a, sz, {}, prog).run()
+            except evalx.NotEvaluable as ex:
+                bad = ('note', 'not evaluable: %s' % ex)
+                break
+            nev += 1
+            why = None
+            if not got or len(got) < 6 or not all(isinstance(x, int) for x in got[:6]):
+                why = 'no fixed six-octet head'
+            else:
+                if got[0] != (5 if v5 else 4):
+                    why = 'version octet %d' % got[0]
+                elif 'type' in a and got[1] != a['type']:
+                    why = 'signature type octet is not the requested type'
+                elif 'pkalgo' in a and got[2] != a['pkalgo']:
+                    why = 'public-key algorithm octet is not the requested algorithm'
+                elif 'hashalgo' in a and got[3] != a['hashalgo']:
+                    why = 'hash algorithm octet is not the requested algorithm'
+                rest = [x for x in got[6:] if item_size(x) > 0]      # an empty block contributes no octet
+                total = sum(item_size(x) for x in rest)
+                if why is None and got[4] * 256 + got[5] != total:
+                    why = 'hashed sub-packet count %d but %d octets of sub-packets follow' % (got[4] * 256 + got[5], total)
+                subs = []
+                i = 0
+                while why is None and i < len(rest):
+                    x = rest[i]
+                    if not (isinstance(x, tuple) and x[0] == 'len'):
+                        why = 'sub-packet area does not parse: item %s where a length is expected' % (x,)
+                        break
+                    j = i + 1
+                    acc = 0
+                    data = []
+                    while j < len(rest) and acc < x[1]:
+                        acc += item_size(rest[j])
+                        data.append(rest[j])
+                        j += 1
+                    if acc != x[1] or not data or not isinstance(data[0], int):
+                        why = 'sub-packet length %d does not cover type octet and data (%d octets follow)' % (x[1], acc)
+                        break
+                    subs.append((data[0] & 0x7F, data[1:]))
+                    i = j
+                if why is None:
+                    d = dict((t_, dat) for t_, dat in subs)
+                    if d.get(2) != _be(a['sigtime'], 4):
+                        why = 'signature creation time sub-packet (type 2) is missing or is not the 4 big-endian octets of the signing time'
+                    for t_, nm in ((3, 'sigexptime'), (9, 'keyexptime')):
+                        if why is None and t_ in d and (nm not in a or d[t_] != _be(a[nm], 4)):
+                            why = 'sub-packet %d is not the 4 big-endian octets of %s' % (t_, nm)
+                        if why is None and nm in a and a[nm] != 0 and t_ not in d:
+                            why = 'requested %s is not emitted (sub-packet %d missing)' % (nm, t_)
+                    if why is None and 16 in d:
+                        want = [('blk', fpr, 8)] if sz.get(fpr) == 8 else [('slice', fpr, 12, 20)] if sz.get(fpr) == 20 and not v5 else None
+                        if want is None or d[16] != want:
+                            why = 'issuer sub-packet (type 16) is %s, not the 8-octet key id (low-order 64 bits of the v4 fingerprint)' % _show_seq(d[16])
+                    if why is None and 33 in d:
+                        n_ = sz.get(fpr)
+                        ver = 4 if n_ == 20 else 5 if n_ == 32 else None
+                        if ver is not None and d[33] != [ver, ('blk', fpr, n_)]:
+                            why = 'issuer fingerprint sub-packet (type 33) is %s, not key version %d followed by the %d-octet fingerprint' % (_show_seq(d[33]), ver, n_)
+                    if why is None and fpr and not v5 and sz.get(fpr) in (8, 20) and 16 not in d:
+                        why = 'no issuer sub-packet (type 16) although the key id is known'
+            if why:
+                bad = ('bad', '%s (arguments %s, sizes %s): emitted  %s' % (why, sorted(a.items()), sorted(sz.items()), _show_seq(got or [])))
+                break
+        if bad is None:
+            n_ok += 1
+            ctx.ok('R19j', key, 'hashed area is well-formed in all %d argument scenarios' % nev, f)
+        elif bad[0] == 'note':
+            ctx.note('R19j', key, bad[1], f)
+        else:
+            ctx.bad('R19j', key, bad[1], f)
+    ctx.floor('R19j', n_ok, 10)
